@@ -175,6 +175,47 @@ def main():
         if old == new:
             errs.append("ElemAttribute::startElement: handling of the xml prefix not recognised")
         flags["xmlPrefixExact"] = new
+    # --- namespace aliases across the import tree: assignment semantics of the push-down, insert semantics of the
+    # copy-back, and their order in Stylesheet::postConstruction (an obligation, plus the collect-first variant)
+    b = body_of(nhc, "NamespacesHandler::overrideNamespaceAliases(")
+    if b is None or "for (; i != theEnd; ++i) { m_namespaceAliases[(*i).first] = (*i).second; }" not in norm(b) \
+            or "theSource.m_namespaceAliases.begin()" not in norm(b):
+        errs.append("NamespacesHandler::overrideNamespaceAliases: must ASSIGN every alias of the source (m_namespaceAliases[key] = value)")
+    b = body_of(nhc, "NamespacesHandler::copyNamespaceAliases(const NamespaceAliasesMapType&")
+    if b is None or "if (m_namespaceAliases.empty() == true) { m_namespaceAliases = theNamespaceAliases; } else" not in norm(b) \
+            or "while(i != theEnd) { m_namespaceAliases.insert(*i); ++i; }" not in norm(b):
+        errs.append("NamespacesHandler::copyNamespaceAliases(map): must INSERT without replacing")
+    b = body_of(nhc, "NamespacesHandler::copyNamespaceAliases(const NamespacesHandler&")
+    if b is None or "copyNamespaceAliases(parentNamespacesHandler.m_namespaceAliases);" not in norm(b):
+        errs.append("NamespacesHandler::copyNamespaceAliases(handler) not recognised")
+    b = body_of(nhc, "NamespacesHandler::setNamespaceAlias(")
+    if b is None or "m_namespaceAliases[&theConstructionContext.getPooledString(theStylesheetNamespace)] = &theConstructionContext.getPooledString(theResultNamespace);" not in norm(b):
+        errs.append("NamespacesHandler::setNamespaceAlias not recognised")
+    ss = open(os.path.join(REPO, "src/xalanc/XSLT/Stylesheet.cpp"), encoding="utf-8", errors="replace").read()
+    b = body_of(ss, "Stylesheet::postConstruction(StylesheetConstructionContext&")
+    if b is None:
+        errs.append("Stylesheet::postConstruction not found")
+    else:
+        n = norm(b)
+        loop = ("StylesheetVectorType::reverse_iterator i = m_imports.rbegin(); while(i != theEnd) { "
+                "(*i)->getNamespacesHandler().overrideNamespaceAliases(m_namespacesHandler); "
+                "(*i)->postConstruction(constructionContext); "
+                "m_namespacesHandler.copyNamespaceAliases((*i)->getNamespacesHandler());")
+        if loop not in n:
+            errs.append("Stylesheet::postConstruction: push-down (override) / post-construct / copy-back over the imports in reverse order not recognised")
+        new = "collectNamespaceAliases(); { m_importsSize = m_imports.size();" in n
+        old = "WhitespaceElementsVectorType::size_type theWhitespaceElementsCount = 0; { m_importsSize = m_imports.size();" in n
+        if old == new:
+            errs.append("Stylesheet::postConstruction: start of the function not recognised")
+        if new:
+            cb = body_of(ss, "Stylesheet::collectNamespaceAliases()")
+            if cb is None or ("StylesheetVectorType::iterator i = m_imports.begin(); while(i != theEnd) { (*i)->collectNamespaceAliases(); "
+                              "m_namespacesHandler.copyNamespaceAliases((*i)->getNamespacesHandler()); ++i; }") not in norm(cb):
+                errs.append("Stylesheet::collectNamespaceAliases not recognised")
+        flags["aliasCollectFirst"] = new
+    sh_ = open(os.path.join(REPO, "src/xalanc/XSLT/Stylesheet.hpp"), encoding="utf-8", errors="replace").read()
+    if "addImport(Stylesheet* theStylesheet) { m_imports.insert(m_imports.begin(), theStylesheet); }" not in norm(sh_):
+        errs.append("Stylesheet::addImport: imports are expected to be stored last-import-first")
     if errs:
         print("\n".join(errs))
         return 1
